@@ -559,7 +559,14 @@ func buildHistoryWorld() []string {
 	put(h("L1"), world.Redirect(301, hist["U0"]))
 	hist["L2"], hist["L1"] = h("L2"), h("L1")
 	put(hist["X0"], docResp(map[string]any{"id": hist["X0"], "type": "Note", "n": "X0"}))
-	return []string{"U0", "U1", "U2", "U3", "U4", "U5", "L3", "L2", "L1", "X0"}
+	// the same host and path under another scheme (must stay an error whatever is cached),
+	// a redirect to it, and two fragment variants of a cached document
+	hist["H0"] = strings.Replace(hist["U0"], "https://", "http://", 1)
+	hist["RH"] = h("RH")
+	put(hist["RH"], world.Redirect(302, hist["H0"]))
+	hist["F1"], hist["F2"] = hist["U0"]+"#a", hist["U0"]+"#b"
+	hist["P1"] = strings.Replace(hist["U0"], "h1.example", "h1.example:443", 1)
+	return []string{"U0", "U1", "U2", "U3", "U4", "U5", "L3", "L2", "L1", "X0", "H0", "RH", "F1", "F2", "P1"}
 }
 
 type result struct {
@@ -666,7 +673,7 @@ func main() {
 		"responses: full product of status-line atoms (2 versions x 17 codes x with/without reason, 8 malformed, 10 exotic) x all header-line sequences of length <=2 over 23 atoms "+
 			"(tolerated/foreign/malformed Content-Types, confusable header names, Location) x 14 bodies x 2 tolerated sets, classified must-accept / must-reject / unspecified by a reference written from the statement; "+
 			"redirect graphs: chains of every length around each budget (jtp.Get budgets 0..3, client.FetchURL budget 20) in 5 Location styles, cycles of length 1..3, 7 kinds of bad hop at each position; "+
-			"histories: explicit-state search over fetch sequences (10 URLs: documents, relative and absolute redirects, 404, cycle, chain longer than the budget and its suffixes) for cache sizes 1,2,3,128, "+
+			"histories: explicit-state search over fetch sequences (15 URLs: documents, relative and absolute redirects, 404, cycle, chain longer than the budget and its suffixes, the same host and path under http and a redirect to it, fragment and :443 variants) for cache sizes 1,2,3,128, "+
 			"state = real cache contents, every fetch compared with the cold result; distinct_nontrivial = response cases that are not the baseline and are judged")
 	theWorld.Install()
 	if *ev.FlagReplay != "" {
